@@ -73,10 +73,12 @@ def build(tier, seed):
     QUICK_ROWS = ("Phif64", "HLTanhf32", "Minstarapproxi8JonesPartialHardLimitDeg1Clip", "HLAminstari8", "Aminstari8Jones", "HLMinstarapproxf64")
     per = 1
     for (kind, heavy), rows_ in sorted(groups.items()):
-        if tier == "quick":
-            rows_ = [r_ for r_ in rows_ if r_[0] in QUICK_ROWS]
-            if not rows_:
-                continue
+        # thorough: twelve rows (one per shard).  All 36 at once was tried: several harnesses per shard that reach
+        # build_decoder make kani-compiler exceed the machine's memory (the kernel killed it in 3 of 10 shards).
+        sel = QUICK_ROWS if tier == "quick" else QUICK_ROWS + ("Phif32", "Tanhf64", "Minstarapproxi8", "HLMinstarapproxi8PartialHardLimit", "HLAminstarf32", "Aminstarf64")
+        rows_ = [r_ for r_ in rows_ if r_[0] in sel]
+        if not rows_:
+            continue
         stubs = "with_table_stubs" if kind == "i8" else "with_surrogate_stubs"
         # flooding A-Min*: the symbolic argmin makes message destinations symbolic; two decodes on a two-check
         # matrix exceed 8 GB / 600 s.  Quick tier: single-check 1x2 matrix for those rows (pins the arithmetic and
@@ -102,9 +104,9 @@ def build(tier, seed):
                    "pair_llr_domain": "s*2^-e, s in [-127,127], e in {0,3,30} (equivalence of two float runs is a miter: small domain, DESIGN P24)"},
         "outside": ["non-ASCII strings and strings longer than 48 bytes",
                     "type identity is observed through the vtable pointer of the trait object (layout of *const dyn as (data, vtable)); a toolchain that duplicated vtables would make this check fail on a correct tree (it does not under Kani 0.68)",
-                    "quick tier: the behavioural differential through the factory runs for six representative rows only (thorough: all 36); the other rows are pinned by type identity", "the C API and CLI call sites of from_str",
+                    "the behavioural differential through the factory runs for six representative rows (thorough: twelve); all 36 rows are pinned by type identity with a behavioural fallback", "the C API and CLI call sites of from_str",
                     "float rows: pairing holds for the SURROGATE interpretation of the math functions on the small LLR domain; the working precision is pinned separately by the width witness on all f64"],
         "stubs": ["TABLE (8-bit rows)", "SURROGATE (float rows)"],
         "assumptions": ["the expected (arithmetic, schedule) of each name is pinned from the documentation in vlib/arith.py (HL prefix = horizontal layered)"],
     }
-    return {"prelude": pre, "items": items, "meta": meta, "nshards": 14 if tier == "quick" else 10, "timeout": 700 if tier == "quick" else 3600, "rss_cap_gb": 10 if tier == "quick" else 14}
+    return {"prelude": pre, "items": items, "meta": meta, "nshards": 14, "timeout": 700 if tier == "quick" else 3600, "rss_cap_gb": 10 if tier == "quick" else 14}
